@@ -625,7 +625,7 @@ def _missing_consts(unit, root, res):
     return extra or [Raw('// ' + '; '.join(log))]
 
 
-def build_and_verify(unit, root, canary=False, rlimit=None, keep_name=None, _retry=True):
+def build_and_verify(unit, root, canary=False, rlimit=None, keep_name=None, _retry=3):
     os.makedirs(BUILD, exist_ok=True)
     gen = generate(unit, root, canary=canary)
     text = '\n'.join(gen.lines) + '\n'
@@ -664,7 +664,7 @@ def build_and_verify(unit, root, canary=False, rlimit=None, keep_name=None, _ret
                 extra = _missing_consts(unit, root, res)
                 if extra:
                     unit.items = extra + list(unit.items)
-                    return build_and_verify(unit, root, canary=canary, rlimit=rlimit, keep_name=keep_name, _retry=False)
+                    return build_and_verify(unit, root, canary=canary, rlimit=rlimit, keep_name=keep_name, _retry=int(_retry) - 1)
             return gen, res, path
         except Exception:
             pass
@@ -677,7 +677,7 @@ def build_and_verify(unit, root, canary=False, rlimit=None, keep_name=None, _ret
         extra = _missing_consts(unit, root, res)
         if extra:
             unit.items = extra + list(unit.items)
-            return build_and_verify(unit, root, canary=canary, rlimit=rlimit, keep_name=keep_name, _retry=False)
+            return build_and_verify(unit, root, canary=canary, rlimit=rlimit, keep_name=keep_name, _retry=int(_retry) - 1)
     res['cached'] = False
     res['sha_generated'] = h
     if res.get('status') != 'tool-error':
